@@ -13,5 +13,6 @@ CONSTANTS Names = {"n1"}
           Depths = {1}
           MaxNow = 0
           MaxSeq = 3
+          Procs = {}
           Devs = {"Dev_C29_PublishCacheKey"}
 INVARIANTS ReadYourPublish
